@@ -197,6 +197,7 @@ def run(ctx):
     ctx.exhaustive = True
     ctx.corr_relations = ['amg_core.rs_cf_splitting, rs_cf_splitting_pass2 == Split.rs_cf_splitting / rs_pass2 (exact)',
                           'amg_core.cljp_naive_splitting(colorflag 0|1) == Split.cljp at binary64 weights (exact)']
+    structured(ctx)
     bad, errs = cq.run_cases('c13', HEADER, 'caseT', 'chk2', cases, shard=1500)
     for e in errs:
         ctx.disagree('C13 model evaluation', None, e, None)
@@ -210,6 +211,61 @@ def run(ctx):
     for i in bad[:20]:
         case, out = metaF[i]
         ctx.disagree('cljp_naive_splitting', case, 'model differs (GraphRun2.chkF)', out)
+
+
+def structured(ctx):
+    """larger structured inputs for the public routines and the CLJP kernel"""
+    from pyamg import amg_core
+    from pyamg.classical import split
+    rng = ctx.sub('structured')
+    # 1. a dependency chain: path 0-1-...-(L-1) whose measures increase along the path (auxiliary node L+m depends on the
+    #    path nodes m..L-1), so that the parallel independent-set sweeps can decide only the top end of the path per round
+    for L in (40, 100):
+        arcs = []
+        for k in range(L - 1):
+            arcs += [(k, k + 1), (k + 1, k)]
+        for m in range(L):
+            arcs += [(L + m, k) for k in range(m, L)]
+        n = 2 * L
+        S = gen.digraph_csr(n, arcs)
+        S.indptr, S.indices = S.indptr.astype(I32), S.indices.astype(I32)
+        case = dict(structured='dependency-chain', L=L, n=n)
+        ctx.mark(case)
+        for nm, f in (('PMIS', lambda: split.PMIS(S)), ('PMISc/JP', lambda: split.PMISc(S, method='JP')),
+                      ('PMISc/MIS', lambda: split.PMISc(S, method='MIS')), ('PMISc/LDF', lambda: split.PMISc(S, method='LDF'))):
+            np.random.seed(ctx.seed)
+            try:
+                a = f()
+            except Exception as e:   # noqa
+                ctx.fail(nm + '/raises', repr(e), case)
+                continue
+            ctx.case(('chain', nm, L), True)
+            ctx.count('public:%s/dependency-chain' % nm)
+            oracle(ctx, nm, n, arcs, a, dict(case, arcs='path + fan-in (see DESIGN 8.6)'), indep_dom=True)
+    # 2. CLJP / CLJPc on many random NONSYMMETRIC patterns (5..12 vertices) and a small corpus: every fine point that depends on
+    #    some node depends on a coarse point
+    corpus = [(5, [(0, 2), (1, 4), (3, 0), (4, 0), (4, 2), (4, 3)])]
+    rand = []
+    for _ in range(1500 if not ctx.thorough else 20000):
+        n = rng.choice([5, 6, 7, 8, 10, 12])
+        dens = rng.choice([0.15, 0.25, 0.4])
+        rand.append((n, [(i, j) for i in range(n) for j in range(n) if i != j and rng.random() < dens]))
+    for n, arcs in corpus + rand:
+        Sp, Sj, Tp, Tj = csr_pair(n, arcs)
+        for colorflag in (0, 1):
+            spl = np.full(n, -9, dtype=I32)
+            amg_core.cljp_naive_splitting(n, Sp, Sj, Tp, Tj, spl, colorflag)
+            ctx.count('cljp%d/random-nonsymmetric' % colorflag)
+            oracle(ctx, 'cljp_naive_splitting/color=%d' % colorflag, n, arcs, spl, dict(n=n, arcs=arcs, colorflag=colorflag), cover=True)
+        ctx.case(('cljp-random', n, tuple(arcs)), bool(arcs))
+    # 3. the same call twice in one process gives the same splitting (also without reseeding NumPy: CLJP seeds its own generator)
+    for n, arcs in rand[:40]:
+        S = gen.digraph_csr(n, arcs)
+        S.indptr, S.indices = S.indptr.astype(I32), S.indices.astype(I32)
+        a, b = split.CLJP(S), split.CLJP(S)
+        if a.tolist() != b.tolist():
+            ctx.fail('CLJP/not-reproducible', 'two calls in a row gave %s and %s' % (a.tolist(), b.tolist()), dict(n=n, arcs=arcs))
+            break
 
 
 def search(ctx):
